@@ -883,3 +883,16 @@ package zerolog
 //@   requires l != nil && update != nil && logctx(l.context)
 //@   ensures l != disabledLogger ==> ncalls(update) == old(ncalls(update)) + 1 && same(l.context, callres(update, old(ncalls(update)), 0).l.context)
 //@   ensures l == disabledLogger ==> ncalls(update) == old(ncalls(update))
+
+// ---------------------------------------------------------------------------
+// C16: the order of the fields when FieldsOrder is set: a field FieldsOrder
+// names goes before one it does not name, two named ones go by their position
+// in FieldsOrder, two unnamed ones lexically.
+//@ func (ConsoleWriter).orderFields$1(i, j) res
+//@   props C16
+//@   arith int
+//@   requires 0 <= i && i < len(deref(fields)) && 0 <= j && j < len(deref(fields)) && w != nil
+//@   ensures maphas(w.fieldIsOrdered, deref(fields)[i]) && maphas(w.fieldIsOrdered, deref(fields)[j]) ==> res == (mapget(w.fieldIsOrdered, deref(fields)[i]) < mapget(w.fieldIsOrdered, deref(fields)[j]))
+//@   ensures maphas(w.fieldIsOrdered, deref(fields)[i]) && !maphas(w.fieldIsOrdered, deref(fields)[j]) ==> res
+//@   ensures !maphas(w.fieldIsOrdered, deref(fields)[i]) && maphas(w.fieldIsOrdered, deref(fields)[j]) ==> !res
+//@   ensures !maphas(w.fieldIsOrdered, deref(fields)[i]) && !maphas(w.fieldIsOrdered, deref(fields)[j]) ==> res == strlt(deref(fields)[i], deref(fields)[j])
